@@ -1,5 +1,5 @@
-(* C08 driver: runs histories through the instrumented store machine (Store/Events.v run_tx_v) and
-   prints, per transaction, op results, commit flag, delivered events, what every listener
+(* C08 driver: runs histories through the instrumented store machine (Store/Events.v run_tx_v) under the
+   hook programs of the HOOKS section (Store/TxHooks.v db_update) and prints, per transaction, op results, commit flag, delivered events, what every listener
    registration style of harness/cmd/storageharness/store_c08.go receives (delivered_to), the
    commit-action / tx-complete counters and the canonical facts.  The parser and the fact printer
    are copies of store_driver.ml. *)
@@ -157,6 +157,54 @@ let listener_tokens (sch : sdef list) (sevs : sevent list) : string list =
     deliver { l_style = LUntypedConstraint; l_store = d.sd_name; l_types = [] } "uc" None true true) sch;
   List.sort compare !out
 
+(* ---- hook programs (alphabet: harness/cmd/storageharness/store_c08.go c08Exec) ----
+   A program token becomes the context the caller prepared before the transaction (Store/TxHooks.v mctx)
+   and the item tree of the function; '.' takes the next operation of the TX section, operations without
+   a '.' are issued at the end of the outermost function.  Labels: commit action c<k> = k, the commit
+   action q<k> a 'q' pre-commit action adds = 500 + k, pre-commit action p<k> = k. *)
+let q_base = 500
+let commit_label (k : int) : string = if k >= q_base then Printf.sprintf "q%d" (k - q_base) else Printf.sprintf "c%d" k
+let default_prog (t : tx) : string =
+  "|cp" ^ (if t.tx_precommit_fails then "f" else "") ^ String.make (List.length t.tx_ops) '.' ^ "c"
+
+let parse_prog (prog : string) (ops : op list) : mctx * hitem list =
+  let n = String.length prog in
+  let nc = ref 0 and np = ref 0 in
+  let ops = ref ops in
+  let reg ch : hitem =
+    match ch with
+    | 'c' -> let k = !nc in incr nc; HAddCommit (nat_of_int k)
+    | _ -> let k = !np in incr np;
+           HAddPre (nat_of_int k, (match ch with 'p' -> PkOk | 'f' -> PkFail | _ -> PkAddsCommit (nat_of_int (q_base + k)))) in
+  let start = (match String.index_opt prog '|' with Some i -> i | None -> -1) in
+  let pre = ref [] and com = ref [] in
+  for i = 0 to start - 1 do
+    match reg prog.[i] with
+    | HAddCommit k -> com := !com @ [k]
+    | HAddPre (k, pk) -> pre := !pre @ [(k, pk)]
+    | _ -> ()
+  done;
+  let pos = ref (start + 1) in
+  let rec items (depth : int) : hitem list =
+    if !pos >= n then []
+    else begin
+      let ch = prog.[!pos] in
+      incr pos;
+      match ch with
+      | ')' -> if depth > 0 then [] else items depth
+      | '.' -> (match !ops with
+                | o :: r -> ops := r; let it = HOp o in it :: items depth
+                | [] -> items depth)
+      | 'c' | 'p' | 'f' | 'q' -> let it = reg ch in it :: items depth
+      | 'u' | 'b' -> let body = items (depth + 1) in let it = HNest ((ch = 'b'), body) in it :: items depth
+      | _ -> items depth
+    end in
+  let body = items 0 in
+  let body = body @ List.map (fun o -> HOp o) !ops in
+  ({ mc_pre = !pre; mc_commit = !com }, body)
+
+let count_of (k : nat) (l : nat list) : int = List.length (List.filter (fun x -> x = k) l)
+
 let () =
   let fuel = nat_of_int 64 in
   iter_lines (fun line ->
@@ -164,6 +212,9 @@ let () =
     pos := 0;
     if Array.length !toks = 0 then print_endline "" else begin
       let mode = (match peek () with Some "MODE" -> ignore (next ()); next () | _ -> "upd") in
+      let progs = (match peek () with
+                   | Some "HOOKS" -> ignore (next ()); let n = next_int () in Array.of_list (repeat n next)
+                   | _ -> [||]) in
       (* a caller that swallows vetoes leaves the machine's transaction discipline: not modelled *)
       if mode = "swl" then toks := [||];
       if mode = "swl" then print_endline "SKIP" else begin
@@ -173,23 +224,52 @@ let () =
       let sch = repeat ns parse_store in
       let st = ref st_empty in
       let buf = Buffer.create 4096 in
+      let txi = ref 0 in
       while peek () <> None do
         let t = parse_tx () in
-        let o = run_tx_v sch fuel !st t in
-        (* cross-check with the plain machine: same results, commit flag and events *)
+        let prog = if !txi < Array.length progs then progs.(!txi) else default_prog t in
+        incr txi;
+        let (ctx0, body) = parse_prog prog t.tx_ops in
+        (* Db.Update / Db.Batch under the program (Store/TxHooks.v; Batch = Update since the tx-complete fix) *)
+        let o = db_update sch fuel !st t.tx_sys t.tx_vetoes ctx0 body in
+        (* cross-checks: the program's transaction is the case line's transaction; the instrumented and the
+           plain machine deliver the same results, commit flag, state-relevant events (db_update_refines_run_tx_v,
+           run_tx_v_events); the program without its nested calls is observed identically (nested_join_transparent) *)
+        let ht = hook_tx t.tx_sys t.tx_vetoes ctx0 body in
+        if ht.tx_ops <> t.tx_ops || ht.tx_precommit_fails <> t.tx_precommit_fails then
+          failwith ("hook program " ^ prog ^ " does not describe its transaction");
+        let v = run_tx_v sch fuel !st t in
+        if v.to_results <> o.ho_results || v.to_committed <> o.ho_committed || v.to_events <> o.ho_events then
+          failwith "db_update disagrees with run_tx_v";
         let (((rs0, c0), _), evs0) = run_tx sch fuel !st t in
-        if rs0 <> o.to_results || c0 <> o.to_committed || evs0 <> List.map (fun se -> se.se_ev) o.to_events then
-          failwith "run_tx_v disagrees with run_tx";
-        st := o.to_state;
+        if rs0 <> o.ho_results || c0 <> o.ho_committed || evs0 <> List.map (fun se -> se.se_ev) o.ho_events then
+          failwith "db_update disagrees with run_tx";
+        let o' = db_update sch fuel !st t.tx_sys t.tx_vetoes ctx0 (flatten body) in
+        if o'.ho_results <> o.ho_results || o'.ho_committed <> o.ho_committed || o'.ho_commit_runs <> o.ho_commit_runs
+           || o'.ho_pre_runs <> o.ho_pre_runs || o'.ho_tc <> o.ho_tc then
+          failwith "nested calls are not transparent";
+        st := o.ho_state;
         Buffer.add_string buf "TX R";
-        List.iter (fun r -> Buffer.add_char buf ' '; Buffer.add_string buf (kind_str r)) o.to_results;
-        Buffer.add_string buf (if o.to_committed then " COMMIT" else " ROLLBACK");
+        List.iter (fun r -> Buffer.add_char buf ' '; Buffer.add_string buf (kind_str r)) o.ho_results;
+        Buffer.add_string buf (if o.ho_committed then " COMMIT" else " ROLLBACK");
         let evl = List.sort compare (List.map (fun se -> let e = se.se_ev in
-          Printf.sprintf "EV:%s:%s:%s:%s" (string_of_name e.ev_store) (change_str e.ev_change) (hex_of_bytes e.ev_id) (bool_str e.ev_parent)) o.to_events) in
+          Printf.sprintf "EV:%s:%s:%s:%s" (string_of_name e.ev_store) (change_str e.ev_change) (hex_of_bytes e.ev_id) (bool_str e.ev_parent)) o.ho_events) in
         List.iter (fun e -> Buffer.add_char buf ' '; Buffer.add_string buf e) evl;
-        List.iter (fun e -> Buffer.add_char buf ' '; Buffer.add_string buf e) (listener_tokens sch o.to_events);
-        (* the harness registers two commit actions and one tx-complete listener per transaction *)
-        Buffer.add_string buf (Printf.sprintf " CA:%d TC:%d" (2 * int_of_nat o.to_commit_actions) (int_of_nat o.to_tx_complete));
+        List.iter (fun e -> Buffer.add_char buf ' '; Buffer.add_string buf e) (listener_tokens sch o.ho_events);
+        (* commit: every registration with its executions; rollback: only executions that must not be there (the
+           pre-commit actions of a transaction whose function succeeded are not printed, see store_c08.go runTx) *)
+        let body_failed = List.exists (fun r -> r <> None) o.ho_results in
+        let ca = if o.ho_committed then List.sort_uniq compare (registered_commits ctx0 body @ o.ho_commit_runs)
+                 else List.sort_uniq compare o.ho_commit_runs in
+        let pa = if o.ho_committed then List.sort_uniq compare (List.map fst (registered_pres ctx0 body) @ o.ho_pre_runs)
+                 else if body_failed then List.sort_uniq compare o.ho_pre_runs else [] in
+        let ca_toks = List.sort compare (List.map (fun k ->
+          Printf.sprintf "CA:%s:%d" (commit_label (int_of_nat k)) (count_of k o.ho_commit_runs)) ca) in
+        let pa_toks = List.sort compare (List.map (fun k ->
+          Printf.sprintf "PA:p%d:%d" (int_of_nat k) (count_of k o.ho_pre_runs)) pa) in
+        List.iter (fun e -> Buffer.add_char buf ' '; Buffer.add_string buf e) ca_toks;
+        List.iter (fun e -> Buffer.add_char buf ' '; Buffer.add_string buf e) pa_toks;
+        Buffer.add_string buf (Printf.sprintf " TC:%d" (int_of_nat o.ho_tc));
         Buffer.add_string buf " ST";
         List.iter (fun f -> Buffer.add_char buf ' '; Buffer.add_string buf f) (facts sch !st);
         Buffer.add_string buf " | "
